@@ -5,6 +5,8 @@ use std::panic::{catch_unwind, AssertUnwindSafe};
 
 thread_local! {
     static LAST_PANIC: RefCell<Option<String>> = const { RefCell::new(None) };
+    /// nesting depth of `catch` on this thread: a panic at depth 0 is the harness's own and ends the shard
+    static CATCHING: std::cell::Cell<u32> = const { std::cell::Cell::new(0) };
 }
 
 /// Install a hook that records the panic message (with location) instead of printing it.
@@ -21,13 +23,20 @@ pub fn silence_panics() {
             .location()
             .map(|l| format!("{}:{}", l.file().rsplit('/').next().unwrap_or(""), l.line()))
             .unwrap_or_default();
+        if std::env::var("VCHECK_TRACE").is_ok() || CATCHING.with(|c| c.get()) == 0 {
+            // (outside `catch`: a slip of the harness itself, reported by the parent as a machinery error)
+            eprintln!("panic: {msg} @ {loc}");
+        }
         LAST_PANIC.with(|p| *p.borrow_mut() = Some(format!("{msg} @ {loc}")));
     }));
 }
 
 /// Run `f`; a panic is returned as its message.
 pub fn catch<T>(f: impl FnOnce() -> T) -> Result<T, String> {
-    match catch_unwind(AssertUnwindSafe(f)) {
+    CATCHING.with(|c| c.set(c.get() + 1));
+    let r = catch_unwind(AssertUnwindSafe(f));
+    CATCHING.with(|c| c.set(c.get() - 1));
+    match r {
         Ok(v) => Ok(v),
         Err(_) => Err(LAST_PANIC
             .with(|p| p.borrow_mut().take())
